@@ -308,7 +308,17 @@ pub fn c02_strategy(transports: BoxedStrategy<Transport>) -> BoxedStrategy<ConvC
             for (i, (method, path, version, headers, mask, head)) in reqs.into_iter().enumerate() {
                 let last = i + 1 == n;
                 let method = if head { "HEAD".to_string() } else { method };
-                let conn = keepalive_for(version, last);
+                // (connection options in any letter case, now and then with a further token: the value is
+                // delivered as it was sent)
+                let conn = keepalive_for(version, last).map(|c| {
+                    let c = match (mask >> 2) % 4 {
+                        0 => c,
+                        1 => c.to_ascii_uppercase(),
+                        2 => c.split('-').map(|p| { let mut q = p.to_string(); if let Some(f) = q.get_mut(0..1) { f.make_ascii_uppercase(); } q }).collect::<Vec<_>>().join("-"),
+                        _ => format!("{}, X-Hop-Thing", c),
+                    };
+                    c
+                });
                 // mostly body-less; sometimes a (small) body so that the framing headers are part of
                 // the delivered list too, incl. Content-Length next to Transfer-Encoding
                 let (framing, also_cl) = match (mask >> 20) % 12 {
@@ -581,6 +591,11 @@ pub fn c10_strategy(transports: BoxedStrategy<Transport>) -> BoxedStrategy<ConvC
                     if matches!(mal, Malform::Expect(_)) && (variety >> 28) & 3 == 1 {
                         r.headers.push(Hdr::new("Content-Length", "0"));
                     }
+                    // ... and whatever it says about the connection (a protocol switch included)
+                    if matches!(mal, Malform::Expect(_)) && (variety >> 25) & 3 == 2 {
+                        r.headers.push(Hdr::new("Connection", ["upgrade", "keep-alive, Upgrade", "close"][(variety as usize >> 22) % 3]));
+                        r.headers.push(Hdr::new("Upgrade", "websocket"));
+                    }
                     r.mal = Some(mal);
                 }
                 conv.reqs.push(r);
@@ -690,7 +705,11 @@ pub fn c12_strategy(transports: BoxedStrategy<Transport>) -> BoxedStrategy<ConvC
                 // (not on an upgrade request: its body is the rest of the connection)
                 let upgrades = conn.as_deref().map(|c| c.to_ascii_lowercase().contains("upgrade")).unwrap_or(false);
                 let blen = if (mask >> 27) % 4 == 0 && !upgrades { [5usize, 1024, 1025, 3000][(mask as usize >> 29) % 4] } else { 0 };
-                let (method, framing) = if blen > 0 { ("POST", Framing::Length { n: blen }) } else { ("GET", Framing::None) };
+                // (now and then the body is chunked and a Content-Length stands beside the coding: that
+                // says nothing about persistence either)
+                let both = blen > 0 && version == "HTTP/1.1" && (mask >> 24) % 4 == 0;
+                let (method, framing) = if both { ("POST", Framing::Chunked { chunks: vec![ChunkSpec { len: blen.min(3000), upper: false, zeros: 0, ext: None }], last_zeros: 0, last_ext: None }) } else if blen > 0 { ("POST", Framing::Length { n: blen }) } else { ("GET", Framing::None) };
+                let also_cl = if both { Some([blen.min(3000), 0, 7][(mask as usize >> 20) % 3]) } else { None };
                 // an Upgrade header without the `upgrade` connection option makes no upgrade request: the
                 // body (here: none) ends where the framing says, also for a handler that reads it to its end
                 let mut headers = headers;
@@ -699,7 +718,7 @@ pub fn c12_strategy(transports: BoxedStrategy<Transport>) -> BoxedStrategy<ConvC
                     headers.push(Hdr::new("Upgrade", ["h2c", "websocket"][(mask as usize >> 20) % 2]));
                 }
                 reads.push(if (blen > 0 && (mask >> 26) & 1 == 1) || offers_upgrade { ReadPlan::ToEof { buf: 700, extra: 0 } } else { ReadPlan::None });
-                conv.reqs.push(build_req(i as u32, method.into(), String::new(), version, headers, framing, None, mask as usize, mask, conn, false));
+                conv.reqs.push(build_req(i as u32, method.into(), String::new(), version, headers, framing, also_cl, mask as usize, mask, conn, false));
             }
             // now and then a request of a protocol version the server does not speak sits in the
             // pipeline, carrying `Connection: close` / `upgrade`: it is answered 505 and ends nothing
@@ -931,6 +950,9 @@ pub fn c18_strategy(transports: BoxedStrategy<Transport>) -> BoxedStrategy<ConvC
             2 => (1u8..4, small_respond()).prop_map(|(calls, finish)| Prog { read: ReadPlan::Touch { calls }, finish }),
             1 => Just(Prog { read: ReadPlan::None, finish: Finish::Drop }),
             1 => Just(Prog { read: ReadPlan::Touch { calls: 2 }, finish: Finish::Drop }),
+            // answered through the raw writer, the body asked for or not
+            1 => (0usize..60, any::<u8>()).prop_map(|(body_len, m)| Prog { read: ReadPlan::None, finish: Finish::Writer { body_len, cuts: vec![], flush_mask: m, zero_writes: false, how: m & 3 } }),
+            1 => (0usize..60, any::<u8>()).prop_map(|(body_len, m)| Prog { read: ReadPlan::ToEof { buf: 900, extra: 1 }, finish: Finish::Writer { body_len, cuts: vec![], flush_mask: m, zero_writes: false, how: m & 3 } }),
         ]
     };
     (proptest::sample::select(vec![0usize, 1, 5, 1024, 1025, 5000]), proptest::bool::weighted(0.8), any::<u32>(), prop_oneof![4 => Just("HTTP/1.1"), 1 => Just("HTTP/1.0")], proptest::bool::weighted(0.3), transports, 0usize..2, headers_strategy(2))
@@ -968,7 +990,12 @@ pub fn c18_strategy(transports: BoxedStrategy<Transport>) -> BoxedStrategy<ConvC
             }
             let rd = render(&conv);
             let total = rd.bytes.len();
-            let script = if expect && (mask >> 29) % 4 != 0 {
+            // (a handler that takes the raw writer without having asked for the body is given an eager
+            // client here: `into_writer` consumes the request and therefore waits for its unread body
+            // before the application can write a byte; neither C18's nor C06's statement speaks of that,
+            // see the note in c06_withhold_strategy)
+            let writer_unread = matches!(p.finish, Finish::Writer { .. }) && matches!(p.read, ReadPlan::None);
+            let script = if expect && (mask >> 29) % 4 != 0 && !writer_unread {
                 // send the head, wait for *a* message (the 100, or the final answer), then the rest
                 vec![Step::Send { from: 0, to: rd.ranges[0].head_end }, Step::AwaitMsgs(1), Step::Send { from: rd.ranges[0].head_end, to: total }, Step::HalfClose]
             } else {
@@ -1018,6 +1045,16 @@ pub fn c06_strategy(transports: BoxedStrategy<Transport>, with_panic: bool) -> B
                 conv.reqs.push(build_req(i as u32, method, "/x".into(), version, vec![Hdr::new("Host", "h")], framing, None, 1, mask, conn, false));
                 progs.push(Prog { read, finish });
             }
+            // now and then a request of a protocol version the server does not speak stands in the
+            // pipeline: it gets its one 505, and the requests around it their one answer each
+            if !(upgrade_last && wait_101) && (conv.reqs.len() * 7 + progs.len() + conv.reqs[0].headers.len()) % 5 == 0 {
+                let at = (conv.reqs[0].path.len() + conv.reqs.len()) % conv.reqs.len();
+                let mut r = ReqSpec::simple(500 + at as u32);
+                r.mal = Some(Malform::VersionToken(["HTTP/2.0", "HTTP/3.0"][conv.reqs.len() % 2].to_string()));
+                conv.reqs.insert(at, r);
+                progs.insert(at, Prog::ok());
+            }
+            let n = conv.reqs.len();
             let total = total_len(&conv);
             let script = if upgrade_last && wait_101 {
                 // the client speaks on the upgraded stream only once it has seen the 101
